@@ -26,6 +26,7 @@ import (
 const c12Mark = "⟦H"
 
 type c12Handler struct {
+	flood   int // answer the first admitted message with this many 60 kB messages
 	mu      sync.Mutex
 	got     []mocrelay.ClientMsg
 	emitted []mocrelay.ServerMsg
@@ -82,9 +83,16 @@ func (h *c12Handler) ServeNostr(ctx context.Context, send chan<- mocrelay.Server
 				}
 				continue
 			}
-			for k := r.IntN(3); k > 0; k-- {
+			nEmit := r.IntN(3)
+			if h.flood > 0 {
+				nEmit, h.flood = h.flood, 0
+			}
+			for k := nEmit; k > 0; k-- {
 				h.seq++
 				sm := c12ServerMsg(r, h.seq)
+				if nEmit > 10 {
+					sm = mocrelay.NewServerNoticeMsg(fmt.Sprintf("%s%d⟧", c12Mark, h.seq) + strings.Repeat("x", 60000))
+				}
 				h.mu.Lock()
 				h.emitted = append(h.emitted, sm)
 				h.mu.Unlock()
@@ -315,6 +323,14 @@ func c12Connection(rep *vk.Report, i int, r *rand.Rand, frames []c12Frame, sigPr
 		pauseAt, pause = len(frames)/3, 400*time.Millisecond
 		rep.Count("connections_outliving_send_timeout", 1)
 	}
+	readerDelay := time.Duration(0)
+	if i%16 == 3 && len(frames) > 6 && sigPrefix == "" {
+		// the handler floods its output while the client is not reading yet: rejections
+		// of frames sent meanwhile must still arrive once the client reads
+		h.flood = 150
+		readerDelay = 300 * time.Millisecond
+		rep.Count("connections_with_flooded_output_and_late_reader", 1)
+	}
 	relay := mocrelay.NewRelay(h, opt)
 	srv := httptest.NewServer(relay)
 	defer srv.Close()
@@ -357,6 +373,7 @@ func c12Connection(rep *vk.Report, i int, r *rand.Rand, frames []c12Frame, sigPr
 		werr <- conn.Write(ctx, websocket.MessageText, []byte(`["REQ","zz-sentinel",{}]`))
 	}()
 	// reader: until the handler's END marker
+	time.Sleep(readerDelay)
 	var fromHandler []mocrelay.ServerMsg
 	var rejections []mocrelay.ServerMsg
 	ended := false
